@@ -366,6 +366,38 @@ pub fn run_schedule(b: &Burst, choices: &[u16], want_readable: bool) -> RunResul
         rr.problem = Some((format!("inv:{}", name), msg.clone()));
         return rr;
     }
+    // convergence: in any one-at-a-time order the last TOPIC announcement a member has
+    // seen for a channel is the topic the channel ends up with
+    {
+        let server = b.cfg.name.clone().unwrap_or_else(|| "irc.irc".into());
+        let snap = w.snapshot();
+        let m = spec::M::from_snapshot(&snap);
+        for i in 0..n {
+            if !w.conns[i].is_live() {
+                continue;
+            }
+            w.drain(i);
+            let nick = match w.info(i) {
+                Some(inf) if inf.authenticated => inf.nick.clone().unwrap_or_default(),
+                _ => continue,
+            };
+            let lines = w.conns[i].lines.clone();
+            for (chn, ch) in &m.chans {
+                if !ch.members.contains_key(&nick) {
+                    continue;
+                }
+                let last = lines.iter().rev().filter_map(|l| tokenize(l).ok()).find(|t| t.prefix.as_deref() != Some(server.as_str()) && t.cmd.eq_ignore_ascii_case("TOPIC") && t.params.first() == Some(chn));
+                if let Some(t) = last {
+                    let seen = t.params.get(1).cloned().unwrap_or_default();
+                    let fin = ch.topic.as_ref().map(|x| x.0.clone()).unwrap_or_default();
+                    if seen != fin {
+                        rr.problem = Some(("topic-divergence".into(), format!("connection {} ({}) saw {:?} as the last TOPIC of {} but the channel's topic is {:?}", i, nick, seen, chn, fin)));
+                        return rr;
+                    }
+                }
+            }
+        }
+    }
     let oc = outcome_of(b, &mut w);
     // liveness round: every live connection still answers
     for i in 0..n {
